@@ -45,7 +45,7 @@ def plan(tier, seed):
     return [dict(seed=seed, shard=i, n=n) for i in range(16)]
 
 
-def gen_case(rng, oversize=False):
+def gen_case(rng, oversize=False, lossy=False):
     nreq = rng.choice([5, 8, 16, 17, 20, 33, rng.randint(5, 60)])
     reqs = []
     for i in range(nreq):
@@ -66,6 +66,15 @@ def gen_case(rng, oversize=False):
         # the caller of a request that can never fit may give up as well
         reqs[k]["cancel"] = rng.choice([None, None, "atput", "atput",
                                         "queued", "early"])
+    if lossy:
+        # a long life on a bad cable: requests one after the other, more
+        # than half of the first 45 frames never come back, the bus is
+        # healthy afterwards
+        reqs = [dict(id=0x10000 + i * 7 + rng.randrange(7),
+                     size=rng.choice([0, 2, 4, 10]), gaps=0,
+                     delay=i * 0.0015 + rng.choice([0, 0.0002]), cancel=None,
+                     cmd=rng.choice([4, 5, 1, 7]))
+                for i in range(rng.randint(60, 100))]
     frames_pol = []
     for f in range(80):
         r = rng.random()
@@ -73,9 +82,15 @@ def gen_case(rng, oversize=False):
             "dup" if r < 0.9 else "slow"
         if rng.random() < 0.04:
             fate = "senderr"
+        if lossy:
+            fate = "lose" if f < 45 and rng.random() < 0.55 else "deliver"
         frames_pol.append(dict(
             fate=fate, delay=rng.choice([0.0001, 0.0003, 0.001, 0.004]),
-            wkc0=[rng.random() < 0.15 for _ in range(16)]))
+            wkc0=[rng.random() < 0.15 for _ in range(16)],
+            # a datagram many terminals have processed: counters beyond 1,
+            # beyond one byte
+            wkc=[rng.choice([1, 1, 1, 2, 3, 255, 256, 512, 0x300, 0xff00,
+                             0xffff]) for _ in range(16)]))
     narrow = rng.choice([0, 0, 0, 6, 12])
     if narrow:
         # identifiers are reused quickly in these histories: a response
@@ -149,7 +164,8 @@ def run_history(case):
                 out = bytearray(data)
                 for j, d in enumerate(dgs[1:]):
                     rid = ((d.addr[0] & 0xffff) << 16) | d.addr[1]
-                    wkc = 0 if pol["wkc0"][j % 16] else 1
+                    wkc = 0 if pol["wkc0"][j % 16] else \
+                        pol.get("wkc", [1] * 16)[j % 16]
                     resp = transform(case["key"], rid, j, d.data)
                     out[d.data_pos:d.wkc_pos] = resp
                     struct.pack_into("<H", out, d.wkc_pos, wkc)
@@ -363,7 +379,9 @@ def run_shard(params):
     rng = random.Random(params["seed"] * 100279 + params["shard"])
     inter = set()
     for i in range(params["n"]):
-        case = gen_case(rng, oversize=(i % 5 == 4))
+        case = gen_case(rng, oversize=(i % 5 == 4), lossy=(i % 12 == 7))
+        if i % 12 == 7:
+            res.count("histories_with_a_long_lossy_start")
         log = run_history(case)
         shared = any(len(f.get("ids", [])) >= 2 for f in log["frames"])
         faults = any(f.get("fate") != "deliver" for f in log["frames"])
